@@ -405,7 +405,12 @@ func (e *ssmEnv) loadBad(kind int) {
 	if err == nil {
 		e.rep.Fail("invalid-load-accepted:"+name, fmt.Sprintf("history %v: Load of %s (%d bytes) returned no error", e.hist, name, len(b)), map[string]interface{}{"history": e.hist})
 	}
-	e.emit("loadbad", "ok")
+	// what the client got back is compared with the model's `writeR` (rejected = an error came back)
+	if err == nil {
+		e.emit("loadbad", "ok")
+	} else {
+		e.emit("loadbad", "rejected")
+	}
 }
 
 func (e *ssmEnv) boot(rows ssmRef, walMode bool) {
